@@ -1001,6 +1001,7 @@ func (u *Unit) execNext(st *State, x *ssa.Next) {
 	st.assume(implies(okT, and(sel(dom, k, SBool), not(sel(it.seen, k, SBool)), not(eq(it.mref, intLit(0))))))
 	st.assume(implies(not(okT), mk(fmt.Sprintf("(forall ((kk %s)) (! (=> (select %s kk) (select %s kk)) :pattern ((select %s kk))))", mc.ks, dom.S, it.seen.S, dom.S), SBool)))
 	it.seen = u.define(st, "seen", ite(okT, store(it.seen, k, tTrue), it.seen))
+	it.cur = k
 	st.tuples[x] = []Term{okT, k, v}
 }
 
